@@ -46,7 +46,8 @@ func (s sl) pop()          { s.l.Pop() }
 func (s sl) insAfter(x, v int) (bool, error) {
 	n, ok := s.l.Find(x)
 	if !ok || n == nil {
-		return false, nil
+		// the handle of a failed Find: must be refused with an error, without panic or effect
+		return false, s.l.InsertAfter(nil, v)
 	}
 	return true, s.l.InsertAfter(n, v)
 }
@@ -78,14 +79,14 @@ func (s dl) pop()          { s.l.Pop() }
 func (s dl) insAfter(x, v int) (bool, error) {
 	n, ok := s.l.Find(x)
 	if !ok || n == nil {
-		return false, nil
+		return false, s.l.InsertAfter(nil, v)
 	}
 	return true, s.l.InsertAfter(n, v)
 }
 func (s dl) insBefore(x, v int) (bool, error) {
 	n, ok := s.l.Find(x)
 	if !ok || n == nil {
-		return false, nil
+		return false, s.l.InsertBefore(nil, v)
 	}
 	return true, s.l.InsertBefore(n, v)
 }
@@ -266,6 +267,11 @@ func run(w *core.Worker, c Case) {
 				j := idx(model, x)
 				if found != (j >= 0) {
 					w.Violation(nm+".find", fmt.Sprintf("step %d %+v: Find(%d) found=%v, model %v", i, op, x, found, model))
+					stop = true
+					return
+				}
+				if j < 0 && !found && err == nil {
+					w.Violation(nm+".insert-absent-accepted", fmt.Sprintf("step %d %+v: inserting next to the nil handle of a failed Find(%d) returned no error, model %v", i, op, x, model))
 					stop = true
 					return
 				}
@@ -536,6 +542,16 @@ func runLong(w *core.Worker, c LongCase) {
 	w.NonTrivial(core.HashString(core.JSON(c)))
 }
 
+// alphabetX additionally inserts next to the nil handle of a failed Find (random and fuzzed scripts only,
+// to keep the exhaustive sweep at its size).
+func alphabetX(double bool) []Op {
+	a := append(alphabet(double), Op{"insafter", "absent"})
+	if double {
+		a = append(a, Op{"insbefore", "absent"})
+	}
+	return a
+}
+
 func alphabet(double bool) []Op {
 	a := []Op{{K: "unshift"}, {K: "append"}, {K: "shift"}, {K: "pop"}}
 	for _, p := range []string{"first", "middle", "last"} {
@@ -557,7 +573,7 @@ func FuzzList(f *testing.F) {
 		if len(data) > 120 {
 			data = data[:120]
 		}
-		a := alphabet(double)
+		a := alphabetX(double)
 		c := Case{Double: double}
 		for _, b := range data {
 			c.Ops = append(c.Ops, a[int(b)%len(a)])
@@ -589,7 +605,7 @@ func TestProp(t *testing.T) {
 		rng := r.Rand("c19-random")
 		for i := 0; i < nRand; i++ {
 			d := rng.Bool()
-			a := alphabet(d)
+			a := alphabetX(d)
 			c := Case{Double: d}
 			nops := rng.Range(6, 30)
 			long := i%500 == 499 // long lists: growth-biased, 120-300 edits
